@@ -759,14 +759,22 @@ def avatar_fault_cases_c16c(g, count, length):
             fresh(3)
             g.add("DUMP")
 
-        script = []
+        # blocks: an acknowledged update (the owner object has a linked avatar), then the adversarial request, then
+        # the grace period + the collector + downloads
+        blocks = []
         for tg, u in ((str(t), a), ("me", a), ("me", b)):
-            script += [("ok", tg, u), ("fault1", tg, u), ("gc", tg, u), ("faultsub", tg, u), ("faultlink", tg, u), ("gc", tg, u)]
-        script += [("nonowner", str(t), b), ("privonly", str(t), b), ("none", str(t), a), ("gc", str(t), a)]
-        script += [("newacc", k_, 0) for k_ in ("-", "1", "2", "3", "4", "5")] + [("gc", str(t), a)]
+            blocks += [[("ok", tg, u), ("fault1", tg, u), ("gc", tg, u)], [("ok", tg, u), ("faultsub", tg, u), ("gc", tg, u)],
+                       [("ok", tg, u), ("faultlink", tg, u), ("gc", tg, u)]]
+        blocks += [[("ok", str(t), a), ("nonowner", str(t), b), ("gc", str(t), a)], [("ok", str(t), a), ("privonly", str(t), b), ("gc", str(t), a)],
+                   [("ok", str(t), a), ("none", str(t), a), ("gc", str(t), a)]]
+        blocks += [[("newacc", k_, 0) for k_ in ("-", "1", "2", "3", "4", "5")] + [("gc", str(t), a)]]
         created = []
         if h % 2:
-            rng.shuffle(script)
+            rng.shuffle(blocks)
+        if g.ctx.tier == "quick":
+            # each history gets a part of the blocks, all histories together all of them (several times)
+            blocks = [bl for j, bl in enumerate(blocks) if (j + h) % 2 == 0]
+        script = [st_ for bl in blocks for st_ in bl]
         steps = script + [None] * max(0, length - len(script))
         old_new = []
         for stp in steps:
